@@ -37,7 +37,7 @@ func (engC17) ID() string    { return "C17" }
 func (engC17) Level() string { return "exploration" }
 func (engC17) Runs(tier string) int {
 	if tier == "thorough" {
-		return 600000 // (about 25 minutes on 16 workers: every run is dozens of goroutine hand-offs)
+		return 300000 // (about 27 minutes on 16 workers, measured: every run is dozens of goroutine hand-offs)
 	}
 	return 16000
 }
